@@ -62,25 +62,57 @@ def run_scratch(chk: Check, prog: Program) -> None:
             chk.ok("C18.R1", key, construct, f"only constants are ever stored ({[unparse(v) for v in vals]}): no dependence on "
                    f"an earlier call", meas.where)
             continue
-        cleared = False
-        for st in prelude:
-            for n in ast.walk(st):
-                if isinstance(n, ast.Delete):
-                    for t in n.targets:
-                        if isinstance(t, ast.Attribute) and t.attr == attr and unparse(t.value) == param:
-                            cleared = True
-                if isinstance(n, ast.Assign):
-                    for t in n.targets:
-                        if isinstance(t, ast.Attribute) and t.attr == attr and unparse(t.value) == param:
-                            cleared = True
-        if cleared:
-            chk.ok("C18.R1", key, construct, f"{param}.{attr} is cleared at the start of every node's visit", meas.where)
+        # path-sensitive: on every path of measure(node) up to its first recursive call - and on every earlier
+        # return - a value left on node.<attr> by a previous layout() call must be gone
+        stale = Opaque("left-by-a-previous-layout-call", truthy=True)
+
+        class _Stop(Exception):
+            pass
+
+        def body(it: Interp, attr=attr):
+            layout = Rec(prog.cls("TreeLayout"))
+            node = it.new_summary(T, "arg")
+            it.arg = node
+            it._set_entry(it.cells[node.cid], attr, stale)
+            top = [True]
+
+            def h(it2, info, args, kwargs):
+                if top[0]:
+                    top[0] = False
+                    return NotImplemented
+                raise _Stop()
+            it.hooks["TreeLayout.measure"] = h
+            try:
+                it.call_function(meas, [layout, node, Num(("sym", "level"))], {})
+                it.how = "returns before visiting any child"
+            except _Stop:
+                it.how = "reaches its first recursive call"
+            return None
+
+        bad = None
+        n_paths = 0
+        for p in explore(prog, body, {"tree_mode": "binary", "max_updepth": 0, "max_downdepth": 1}):
+            if p.outcome != "return":
+                continue
+            n_paths += 1
+            it = p.interp
+            v = it.cells[it.arg.cid].cur.get(attr, _MISSING)
+            if v is stale:
+                bad = (p.cond, it.how)
+                break
+        if bad is None and n_paths:
+            chk.ok("C18.R1", key, construct, f"{param}.{attr} is cleared on all {n_paths} paths before the children are visited "
+                   f"or the visit returns", meas.where)
+        elif bad is None:
+            chk.undecided("C18.R1", key, construct, "no path of measure could be interpreted", meas.where)
         else:
             chk.fail("C18.R1", key, construct,
                      f"'{attr}' is stored with a call-specific value ({[unparse(v) for v in call_specific]}) and read with "
-                     f"getattr(..., '{attr}', default) without being cleared on the visited node first: a second layout() "
-                     f"of the same tree follows threads of the first call and assigns different coordinates",
-                     witness={"reads": sites[:4], "example": "layout the same tree twice: coordinates differ"}, where=meas.where)
+                     f"getattr(..., '{attr}', default); on the path [{bad[0]}] measure {bad[1]} while the node still carries "
+                     f"the value of a previous layout() call: a second layout() of the same tree follows threads of the first "
+                     f"call and assigns different coordinates",
+                     witness={"reads": sites[:4], "path": bad[0], "example": "layout the same tree twice: coordinates differ"},
+                     where=meas.where)
 
 
 def run_measure_depth(chk: Check, prog: Program) -> None:
